@@ -3083,4 +3083,169 @@ example : (match (runHandler 200 .parseShowTagValuesStatement).run (PState.init 
       m.name == "cpu".toList && v == "my tag".toList
     | _ => false) = true := by decide +kernel
 
+/-! ### SHOW MEASUREMENTS with `ON` and `WITH MEASUREMENT` -/
+
+/-- `[ON db[.rp] | ON * | ON *.* …] [WITH MEASUREMENT = m | =~ /re/] [WHERE cond] [LIMIT l] [OFFSET o]`. -/
+def showMeasText (db rp : Str) (wdb wrp : Bool) (m : MeasSpec) (c : Option Expr) (l o : Int) : Str :=
+  onMeasText db rp wdb wrp ++ (withMeasText m ++ (whereText c ++ (posText .LIMIT l ++ posText .OFFSET o)))
+
+/-- The text equation; a measurement name is not empty (finding `empty-identifier-not-printed`:
+`WITH MEASUREMENT = ""` prints no name). -/
+theorem showMeasurements_full_print_partial (db rp : Str) (wdb wrp : Bool) (m : MeasSpec) (c : Option Expr) (l o : Int)
+    (hm : ∀ n, m = .name n → n ≠ []) :
+    (Statement.showMeasurements db rp wdb wrp m.source c [] l o).print =
+      tx "SHOW MEASUREMENTS" ++ showMeasText db rp wdb wrp m c l o := by
+  have p1 : (Statement.showMeasurements db rp wdb wrp m.source c [] l o).print =
+      tx "SHOW MEASUREMENTS" ++
+      (if db ≠ [] ∨ wdb then
+        tx " ON " ++ (if wdb then tx "*" else qi db) ++
+        (if wrp then tx ".*" else if rp ≠ [] then tx "." ++ qi rp else [])
+       else []) ++
+      (match m.source with
+       | none => []
+       | some (.measurement m) =>
+         tx " WITH MEASUREMENT " ++ (if m.regex.isSome then tx "=~ " else tx "= ") ++ m.print
+       | some x => tx " WITH MEASUREMENT = " ++ x.print) ++
+      clauseWhere c ++ clauseOrderBy [] ++ clausePos "LIMIT" l ++ clausePos "OFFSET" o := rfl
+  have e0 : clauseOrderBy [] = [] := rfl
+  have eon : (if db ≠ [] ∨ wdb then
+        tx " ON " ++ (if wdb then tx "*" else qi db) ++
+        (if wrp then tx ".*" else if rp ≠ [] then tx "." ++ qi rp else [])
+       else []) = onMeasText db rp wdb wrp := by
+    have e1 : tx "*" = ['*'] := by decide +kernel
+    have e2 : tx ".*" = ['.', '*'] := by decide +kernel
+    have e3 : tx "." = ['.'] := by decide +kernel
+    rw [tx_on, e1, e2, e3]
+    unfold onMeasText starText rpMeasText
+    by_cases h1 : db ≠ [] ∨ wdb = true
+    · rw [if_pos h1, if_pos h1]
+      by_cases h2 : wdb = true <;> by_cases h3 : wrp = true <;> by_cases h4 : rp ≠ [] <;>
+        simp only [h2, h3, h4, if_true, if_false, not_false_eq_true, List.append_assoc, List.cons_append,
+          List.nil_append, List.append_nil]
+    · rw [if_neg h1, if_neg h1]
+  have ems : (match m.source with
+       | none => []
+       | some (.measurement m) =>
+         tx " WITH MEASUREMENT " ++ (if m.regex.isSome then tx "=~ " else tx "= ") ++ m.print
+       | some x => tx " WITH MEASUREMENT = " ++ x.print) = withMeasText m := by
+    have e1 : tx " WITH MEASUREMENT " = ' ' :: (Token.WITH.str ++ ' ' :: (Token.MEASUREMENT.str ++ [' '])) := by
+      decide +kernel
+    have e2 : tx "=~ " = ['=', '~', ' '] := by decide +kernel
+    have e3 : tx "= " = ['=', ' '] := by decide +kernel
+    cases m with
+    | none => rfl
+    | name n =>
+      have hp : Measurement.print { name := n } = qi n := nameSrc_print n (hm n rfl)
+      show tx " WITH MEASUREMENT " ++ (if (none : Option Str).isSome then tx "=~ " else tx "= ") ++
+        Measurement.print { name := n } = _
+      rw [hp, e1, e3]
+      simp [withMeasText]
+    | regex src =>
+      have hp : Measurement.print { regex := some src } = '/' :: (escapeSlashes src ++ ['/']) := by
+        unfold Measurement.print; simp
+      show tx " WITH MEASUREMENT " ++ (if (some src : Option Str).isSome then tx "=~ " else tx "= ") ++
+        Measurement.print { regex := some src } = _
+      rw [hp, e1, e2]
+      simp [withMeasText]
+  rw [p1, eon, ems, clauseWhere_eq, (clausePos_eq l).1, (clausePos_eq o).2.1, e0]
+  simp only [showMeasText, List.append_assoc, List.append_nil]
+
+/-- The tokens that continue a SHOW MEASUREMENTS statement: those of `showStop` and `.` (after `ON db`). -/
+def showMeasStop : List Token := .DOT :: showStop
+
+/-- **Print → parse, SHOW MEASUREMENTS** `[ON db | ON db.rp | ON * | ON *.* | ON db.* | ON *.rp]
+[WITH MEASUREMENT = m | WITH MEASUREMENT =~ /re/] [WHERE cond] [LIMIT l] [OFFSET o]`.
+Partial: `OnMeasOK` excludes `ON "".rp` / `ON "".*` (finding `empty-identifier-not-printed`: the clause is not
+printed when the database is the empty name); the measurement of `WITH MEASUREMENT` is a plain name (no
+database / retention policy qualification) or a regex that can be written as text; the condition is
+`Printable`; no `ORDER BY`. `WITH MEASUREMENT = /re/` (accepted by the parser) yields the same statement as `=~`. -/
+theorem showMeasurements_full_print_parse_partial (fuel : Nat) (s : PState) (db rp : Str) (wdb wrp : Bool) (m : MeasSpec)
+    (c : Option Expr) (l o : Int) (k : Str)
+    (hex1 : Expressible db) (hex2 : Expressible rp) (hon : OnMeasOK db rp wdb wrp) (hm : m.okB = true) (hc : CondOK c)
+    (hl : 0 ≤ l ∧ l ≤ maxInt64) (ho : 0 ≤ o ∧ o ≤ maxInt64) (hk : Follow k showMeasStop)
+    (hs : s.Before (showMeasText db rp wdb wrp m c l o ++ k)) :
+    wp (runHandler fuel .parseShowMeasurementsStatement) s
+      (fun st s' => st = .showMeasurements db rp wdb wrp m.source c [] l o ∧ RT.Stand s' k) (· = .fuel) := by
+  have g4 : Follow (posText .OFFSET o ++ k) [.DOT, .ON, .WITH, .WHERE, .ORDER, .LIMIT] :=
+    Follow.opt (kwText_pos _ _) (by decide +kernel) rfl (by decide) (hk.mono (by decide))
+  have g3 : Follow (posText .LIMIT l ++ (posText .OFFSET o ++ k)) [.DOT, .ON, .WITH, .WHERE, .ORDER] :=
+    Follow.opt (kwText_pos _ _) (by decide +kernel) rfl (by decide) (g4.mono (by decide))
+  have g2 : Follow (whereText c ++ (posText .LIMIT l ++ (posText .OFFSET o ++ k))) [.DOT, .ON, .WITH] :=
+    Follow.opt (kwText_where _) (by decide +kernel) rfl (by decide) (g3.mono (by decide))
+  have g1 : Follow (withMeasText m ++ (whereText c ++ (posText .LIMIT l ++ (posText .OFFSET o ++ k)))) [.DOT, .ON] :=
+    Follow.opt (kwText_withMeas _) (by decide +kernel) rfl (by decide) (g2.mono (by decide))
+  have hs0 : RT.Stand s (onMeasText db rp wdb wrp ++ (withMeasText m ++ (whereText c ++ (posText .LIMIT l ++
+      (posText .OFFSET o ++ k))))) := by
+    have := hs.stand
+    simpa only [showMeasText, List.append_assoc] using this
+  obtain ⟨s1, h1, st1⟩ := parseOnMeas_print s db rp wdb wrp _ hex1 hex2 hon (g1.mono (by decide)) hs0
+  obtain ⟨s2, h2, st2⟩ := parseWithMeas_print s1 m _ hm (g2.mono (by decide)) st1
+  simp only [runHandler]
+  rw [parseShowMeasurements_eq, wp_bind, wp_of_run_ok h1]
+  dsimp only
+  rw [wp_bind, wp_of_run_ok h2, wp_bind]
+  refine wp_mono (parseCondition_print fuel s2 c _ hc (g3.mono (by decide)) st2) ?_ (fun _ h => h)
+  intro c' s5 ⟨hc', st5⟩
+  subst hc'
+  obtain ⟨s6, h6, st6⟩ := parseOrderBy_absent s5 _ (g3.mono (by decide)) st5
+  obtain ⟨s7, h7, st7⟩ := parseOptTokInt_print .LIMIT (by decide +kernel) s6 l _ hl.1 hl.2 (g4.mono (by decide)) st6
+  obtain ⟨s8, h8, st8⟩ := parseOptTokInt_print .OFFSET (by decide +kernel) s7 o k ho.1 ho.2 (hk.mono (by decide)) st7
+  rw [wp_bind, wp_of_run_ok h6, wp_bind, wp_of_run_ok h7, wp_bind, wp_of_run_ok h8, wp_pure]
+  exact ⟨rfl, st8⟩
+
+/-- Non-vacuity: `ON "my db"."rp.1" WITH MEASUREMENT = "my m" WHERE … LIMIT 10 OFFSET 3`, `ON *.* WITH MEASUREMENT =~ /^c\/pu/`,
+`ON db0.*`, `ON *`. -/
+def exMeasText1 : Str := showMeasText "my db".toList "rp.1".toList false false (.name "my m".toList) exCond 10 3
+def exMeasText2 : Str := showMeasText [] [] true true (.regex "^c/pu".toList) none 0 0
+def exMeasText3 : Str := showMeasText "db0".toList [] false true .none none 0 2
+def exMeasText4 : Str := showMeasText [] [] true false .none none 0 0
+
+example : exMeasText1 = (" ON \"my db\".\"rp.1\" WITH MEASUREMENT = \"my m\" " ++
+      "WHERE host = 'a' AND (x > -1 OR y =~ /^b/) LIMIT 10 OFFSET 3").toList ∧
+    exMeasText2 = " ON *.* WITH MEASUREMENT =~ /^c\\/pu/".toList ∧
+    exMeasText3 = " ON db0.* OFFSET 2".toList ∧ exMeasText4 = " ON *".toList := by decide +kernel
+
+example : OnMeasOK "my db".toList "rp.1".toList false false ∧ OnMeasOK [] [] true true ∧ OnMeasOK "db0".toList [] false true ∧
+    OnMeasOK [] [] true false ∧ OnMeasOK [] "rp".toList true false ∧ OnMeasOK [] [] false false ∧
+    ¬ OnMeasOK [] "rp".toList false false ∧ ¬ OnMeasOK [] [] false true := by decide +kernel
+
+section
+attribute [local irreducible] wp
+example : wp (runHandler 200 .parseShowMeasurementsStatement) (PState.init exMeasText1 [] [])
+    (fun st s' => st = .showMeasurements "my db".toList "rp.1".toList false false (some (nameSrc "my m".toList)) exCond [] 10 3 ∧
+      RT.Stand s' [eofRune]) (· = .fuel) :=
+  showMeasurements_full_print_parse_partial 200 (PState.init exMeasText1 [] []) "my db".toList "rp.1".toList false false
+    (.name "my m".toList) exCond 10 3 [eofRune] (by decide +kernel) (by decide +kernel) (by decide +kernel)
+    (by decide +kernel) (by decide +kernel) (by decide) (by decide) (Follow.eof _ (by decide))
+    (init_before exMeasText1 (by decide +kernel))
+
+example : wp (runHandler 200 .parseShowMeasurementsStatement) (PState.init exMeasText2 [] [])
+    (fun st s' => st = .showMeasurements [] [] true true (some (.measurement { regex := some "^c/pu".toList })) none [] 0 0 ∧
+      RT.Stand s' [eofRune]) (· = .fuel) :=
+  showMeasurements_full_print_parse_partial 200 (PState.init exMeasText2 [] []) [] [] true true
+    (.regex "^c/pu".toList) none 0 0 [eofRune] (by decide +kernel) (by decide +kernel) (by decide +kernel)
+    (by decide +kernel) (by decide +kernel) (by decide) (by decide) (Follow.eof _ (by decide))
+    (init_before exMeasText2 (by decide +kernel))
+
+example : wp (runHandler 200 .parseShowMeasurementsStatement) (PState.init exMeasText3 [] [])
+    (fun st s' => st = .showMeasurements "db0".toList [] false true none none [] 0 2 ∧ RT.Stand s' [eofRune]) (· = .fuel) :=
+  showMeasurements_full_print_parse_partial 200 (PState.init exMeasText3 [] []) "db0".toList [] false true
+    .none none 0 2 [eofRune] (by decide +kernel) (by decide +kernel) (by decide +kernel)
+    (by decide +kernel) (by decide +kernel) (by decide) (by decide) (Follow.eof _ (by decide))
+    (init_before exMeasText3 (by decide +kernel))
+end
+
+/-- … and the fuel suffices. -/
+example : (match (runHandler 200 .parseShowMeasurementsStatement).run (PState.init exMeasText1 [] []) with
+    | .ok _ => true
+    | .error _ => false) = true := by decide +kernel
+
+/-- The excluded `ON` clauses (finding `empty-identifier-not-printed`): `SHOW MEASUREMENTS ON "".rp` is accepted
+and prints without the clause. -/
+example : (match parseStatementText "SHOW MEASUREMENTS ON \"\".rp".toList [] [] with
+     | .ok (.showMeasurements [] r false false none none [] 0 0) => r == "rp".toList
+     | _ => false) = true ∧
+    (Statement.showMeasurements [] "rp".toList false false none none [] 0 0).print = "SHOW MEASUREMENTS".toList := by
+  constructor <;> decide +kernel
+
 end InfluxQL.C02
